@@ -660,7 +660,6 @@ def resolve_ctor(mods, bases, m, q, call):
             start = _ancestors(bases, (m.rel, cls))
         elif isinstance(f.value, ast.Name) and f.value.id in m.classes:
             start = [(m.rel, f.value.id)]
-            skip_self = 0 if False else 1
     if not start:
         return None
     if isinstance(f, ast.Name):
